@@ -48,6 +48,7 @@ PLANS = {
                  ('depth3/13 events', [(b, 'Q13', 3) for b in _B]),
                  ('depth2/28 events/mixed', [('mixed', 'ALL28', 2)]),
                  ('depth4/core 7 events/funcs', [('funcs', 'CORE7', 4)])],
+    'tiny': [('depth1/core 7 events/funcs', [('funcs', 'CORE7', 1)])],
     'dev': [('depth1/13 events', [(b, 'Q13', 1) for b in _B]),
             ('depth2/core 7 events/funcs', [('funcs', 'CORE7', 2)])],
 }
@@ -162,25 +163,59 @@ class Editor:
 
     def close(self, mode, root):
         if mode == 'path':
+            self.drop_shadow(os.path.join(root, 'buf.py'))
             shutil.rmtree(root, ignore_errors=True)
 
     def script(self, text, path, project):
-        return self.jedi.Script(text, path=path, environment=self.env, project=project)
+        """The newest Script of the buffer.  The same text is also fed to a *shadow* parso cache
+        entry (same grammar, same call, its own key), so that the shadow sees exactly the
+        sequence of re-parses the buffer's entry sees - without jedi in between."""
+        s = self.jedi.Script(text, path=path, environment=self.env, project=project)
+        key = self.shadow_key(path)
+        try:
+            self.shadow_tree = s._inference_state.grammar.parse(
+                code=text, path=key, cache=False, diff_cache=True)
+        except Exception as e:
+            self.shadow_tree = e
+        return s
 
-    def tree_state(self, script, text):
-        """'' if the incrementally re-parsed tree equals a from-scratch parse, else a reason."""
-        node = script._module_node
+    def shadow_key(self, path):
+        return '<c08-shadow-of-None>' if path is None else str(path) + '.c08-shadow'
+
+    def drop_shadow(self, path):
+        from parso.cache import parser_cache
+        if path is not None:
+            for d in parser_cache.values():
+                d.pop(self.shadow_key(path), None)
+
+    @staticmethod
+    def _tree_problem(node, text, ref_dump):
         try:
             if node.get_code() != text:
                 return 'get_code() differs from the text'
-            ref = script._inference_state.grammar.parse(text)   # no cache, no diff parser
-            if battery.tree_dump(node) != battery.tree_dump(ref):
+            if battery.tree_dump(node) != ref_dump:
                 return 'structure differs from a from-scratch parse'
             if not battery.tree_links_ok(node):
                 return 'parent links inconsistent'
         except Exception as e:     # a broken tree may break the dump itself
             return 'dump failed: %s' % type(e).__name__
         return ''
+
+    def tree_state(self, script, text):
+        """-> (parso_divergence, jedi_only): the first is non-empty iff parso's diff parser, fed
+        the same sequence of texts on its own, also fails to produce the from-scratch tree (the
+        property's proviso: such a step is not judged); the second is non-empty iff only the
+        tree jedi works on is wrong (parso kept its promise: the step is judged)."""
+        ref = battery.tree_dump(script._inference_state.grammar.parse(text))  # no cache, no diff
+        mine = self._tree_problem(script._module_node, text, ref)
+        if not mine:
+            return '', ''
+        if isinstance(self.shadow_tree, Exception):
+            return 'parso raised %s' % type(self.shadow_tree).__name__, ''
+        shadow = self._tree_problem(self.shadow_tree, text, ref)
+        if shadow:
+            return mine, ''
+        return '', mine
 
 
 def run_history(ed, mode, base, events, judge=None, refs=True):
@@ -219,10 +254,10 @@ def run_history(ed, mode, base, events, judge=None, refs=True):
             except Exception as e:
                 rec['answers'] = {'Script': {'exc': canon.exc_site(e),
                                              'tb': canon.short_tb(e, 4)}}
-                rec['diverged'] = ''
+                rec['diverged'] = rec['jedi_tree_wrong'] = ''
                 evals += 1
             else:
-                rec['diverged'] = ed.tree_state(script, text)
+                rec['diverged'], rec['jedi_tree_wrong'] = ed.tree_state(script, text)
                 rec['answers'], n = battery.answers(script, text, root, refs=refs)
                 evals += n
                 del script
@@ -257,8 +292,17 @@ def site_of(key, observed):
 # fresh-process oracle
 # ---------------------------------------------------------------------------------------------
 
+ORACLE_BATCH = max(1, int(os.environ.get('JV_C08_ORACLE_BATCH', '1') or 1))
+
+
 def oracle_dir():
-    d = os.path.join(boot.scratch_root(), 'c08-oracle')
+    """Oracle answers of this run (scratch).  Development knob JV_C08_ORACLE_DIR keeps them
+    between runs of the same checkout (never used by bin/check on its own)."""
+    keep = os.environ.get('JV_C08_ORACLE_DIR')
+    if keep:
+        d = os.path.join(keep, sha(os.path.abspath(boot.REPO)))
+    else:
+        d = os.path.join(boot.scratch_root(), 'c08-oracle')
     os.makedirs(d, exist_ok=True)
     return d
 
@@ -342,24 +386,34 @@ def oracle_main(job_path, out_path):
     cd = settings.cache_directory
     copy_warm(job.get('warm'))   # private copy of the stub pickles written by the warm-up process
     ed = Editor('o')
-    base, text = job['base'], job['text']
-    res = {}
+    items = [(job['base'], job['text'], out_path)]
+    # economy knob (JV_C08_ORACLE_BATCH > 1): further texts served by the same interpreter, each
+    # under a never-used path, the path-less slot emptied in between
+    items += [(b, t, oracle_file(b, t)) for b, t in job.get('more', [])]
     try:
-        for mode in job['modes']:
-            path, root, project = ed.open(mode, base)
-            script = ed.script(text, path, project)
-            if job.get('cursor'):
-                res[mode] = battery.cursor_answers(script, text, root)[0]
-            else:
-                res[mode] = battery.answers(script, text, root)[0]
-            del script
+        for base, text, out in items:
+            res = {}
+            for mode in job['modes']:
+                path, root, project = ed.open(mode, base)
+                script = ed.script(text, path, project)
+                if job.get('cursor'):
+                    res[mode] = battery.cursor_answers(script, text, root)[0]
+                else:
+                    res[mode] = battery.answers(script, text, root)[0]
+                del script
+                ed.close(mode, root)
+            tmp = out + '.tmp%d' % os.getpid()
+            with open(tmp, 'w') as f:
+                json.dump(res, f)
+            os.rename(tmp, out)
+            if len(items) > 1:
+                from parso.cache import parser_cache
+                for d in parser_cache.values():
+                    d.pop(None, None)
+                    d.pop(ed.shadow_key(None), None)
     finally:
         shutil.rmtree(ed.top, ignore_errors=True)
         shutil.rmtree(cd, ignore_errors=True)
-    tmp = out_path + '.tmp'
-    with open(tmp, 'w') as f:
-        json.dump(res, f)
-    os.rename(tmp, out_path)
 
 
 _oracle_memo = {}
@@ -409,7 +463,7 @@ def _work(task):
     deadline = task.get('deadline')
     out = {'histories': 0, 'steps': 0, 'evals': 0, 'judged': 0, 'diverged': [], 'mism': [],
            'hits': {}, 'vectors': [], 'no_oracle': 0, 'keystroke_exc': [], 'not_run': 0,
-           'modes': {}, 'tree_reused': 0}
+           'modes': {}, 'jedi_tree_wrong': 0}
     vectors = set()
     for idx, (mode, base, events) in enumerate(seq):
         if deadline and _real_time.time() > deadline:
@@ -432,6 +486,8 @@ def _work(task):
             out['steps'] += 1
             out['hits'][st['event']] = out['hits'].get(st['event'], 0) + 1
             vectors.add(st['sha'][:10] + sha(json.dumps(st['answers'], sort_keys=True))[:10])
+            if st.get('jedi_tree_wrong'):
+                out['jedi_tree_wrong'] += 1
             if st['diverged']:
                 out['diverged'].append({'history': hist_id(base, mode, events), 'step': i,
                                         'why': st['diverged'], 'seq': idx})
@@ -459,6 +515,16 @@ def _work(task):
 
 def _run_oracles(ctx, wanted, label):
     """wanted: list of oracle jobs; runs them NPROC at a time.  -> number missing."""
+    wanted = [w for w in wanted
+              if not os.path.exists(oracle_file(w['base'], w['text'], w.get('strict')))]
+    if ORACLE_BATCH > 1:
+        plain = [w for w in wanted if not w.get('strict')]
+        wanted = [w for w in wanted if w.get('strict')]
+        for i in range(0, len(plain), ORACLE_BATCH):
+            grp = plain[i:i + ORACLE_BATCH]
+            head = dict(grp[0])
+            head['more'] = [[w['base'], w['text']] for w in grp[1:]]
+            wanted.append(head)
     if not wanted:
         return 0
     pres = pool.run(wanted, 'jv.props.c08:_oracle_task', init=None, seed=ctx.seed,
@@ -466,7 +532,7 @@ def _run_oracles(ctx, wanted, label):
     ctx.absorb(pres, label)
     for i in pres.crashed:
         ctx.harness_error('%s: oracle driver died on %r' % (label, wanted[i]['text'][:80]))
-    return len(pres.skipped)
+    return sum(1 + len(wanted[i].get('more', ())) for i in pres.skipped)
 
 
 def _strict(ctx, base, text, mode, perturb):
@@ -502,7 +568,8 @@ def run(ctx):
                  for b in model.BASES]
     seen_texts = {(b, model.BASES[b]) for b in model.BASES}
     n_oracles = 1 + len(checks) + len(base_jobs)
-    tot = {'histories': 0, 'steps': 0, 'evals': 0, 'judged': 0, 'no_oracle': 0, 'not_run': 0}
+    tot = {'histories': 0, 'steps': 0, 'evals': 0, 'judged': 0, 'no_oracle': 0, 'not_run': 0,
+           'jedi_tree_wrong': 0}
     hits, modes = {}, {}
     vectors = set()
     diverged, ksexc = [], []
@@ -607,9 +674,11 @@ def run(ctx):
                 'evaluations = query calls; distinct_nontrivial = distinct (text, canonical '
                 'result vector) pairs observed after a step',
         'histories_per_mode': modes, 'steps_judged': tot['judged'],
-        'distinct_texts': len(seen_texts), 'oracle_processes': n_oracles,
+        'distinct_texts': len(seen_texts), 'oracle_jobs': n_oracles,
+        'texts_per_oracle_interpreter': ORACLE_BATCH,
         'parso_diff_parser_divergences': len(diverged),
         'parso_divergence_samples': diverged[:10],
+        'steps_where_only_jedis_tree_was_wrong(judged)': tot['jedi_tree_wrong'],
         'fresh_processes_disagreeing_with_each_other': unstable,
         'keystroke_exceptions_seen': n_ksexc,
         'event_hits': hits, 'events_never_enabled': disabled,
@@ -733,8 +802,11 @@ ASSUMPTIONS = [
     'site) is re-judged against two single-purpose fresh interpreters (one per (mode, text), '
     'empty cache directory, the second with a shifted heap); the base texts are '
     'cross-checked that way on every run',
-    'steps whose incrementally re-parsed tree differs from a from-scratch parse are counted '
-    'and listed (parso_diff_parser_divergences), not judged (the property\'s proviso)',
+    'proviso: after each step the tree jedi works on is compared (get_code(), structural dump, '
+    'parent links) with a from-scratch parse; if it differs AND a shadow parso cache entry fed '
+    'the same sequence of texts without jedi differs as well, the step is counted and listed '
+    'as parso diff-parser divergence and not judged; if only jedi\'s tree is wrong the step is '
+    'judged',
     'keystrokes of the typing event build a Script each and ask complete+get_signatures at '
     'the cursor; they are judged only if they raise (then against a fresh process)',
     'answers are compared as canonical JSON: infer/goto/help/get_references/get_signatures '
